@@ -1024,7 +1024,12 @@ class bpch1(bpch_base):
                 (header[7], header[8]) == (first_header[7], first_header[8]) or
                 offset == file_size
             ):
-                if offset == file_size:
+                # the last block of the file is a new variable only if it
+                # does not repeat the first one (one variable, two times)
+                if offset == file_size and (
+                    (header[7], header[8]) !=
+                    (first_header[7], first_header[8])
+                ):
                     dim = header[13][::-1]
                     # start = header[14][::-1]
                     data_type = dtype('>i4, %s>f4, >i4' %
